@@ -66,6 +66,8 @@ WR == /\ Is("wr")
 MapRel == /\ Is("maprel")
           /\ A("C06", "tokens-equal-up-to-renaming",
                CoreSeq(E.after) = RenameToks(CoreSeq(E.before), PermOfList(E.ll), PermOfList(E.rl)))
+          /\ A("C13", "mapped-dictionary-tokenizes-identically",
+               CoreSeq(E.after) = RenameToks(CoreSeq(E.before), PermOfList(E.ll), PermOfList(E.rl)))
           /\ A("C06", "surfaces-and-features-equal",
                /\ Len(E.after) = Len(E.before)
                /\ \A i \in 1..Len(E.after) : E.after[i].surf = E.before[i].surf /\ E.after[i].f = E.before[i].f)
@@ -126,6 +128,6 @@ CliErr == Is("cli_err") /\ A("C10", "tool-failed", FALSE) /\ UNCHANGED <<dict, o
 
 Lift(a) == a /\ UNCHANGED <<lastop, lastp>>
 DNext == \/ CliTok \/ CliWakati \/ CliOrder \/ CliMapRel \/ CliErr \/ DSession \/ Proj \/ User \/ Map \/ WR \/ MapRel \/ DProbs \/ Lift(CInit) \/ Lift(CUpd)
-         \/ Lift(BigSent) \/ Lift(Reset) \/ Lift(Tok) \/ Lift(Read) \/ Lift(PanicStuck) \/ Lift(PanicElsewhere)
+         \/ Lift(BuildErr) \/ Lift(BigSent) \/ Lift(Reset) \/ Lift(Tok) \/ Lift(Read) \/ Lift(PanicStuck) \/ Lift(PanicElsewhere)
 DSpec == DInit /\ [][DNext]_dvars
 ===========================================================================
